@@ -236,6 +236,10 @@ class Builder:
                     if self.chance(25):
                         rd, mut = mut, rd
                     return Bin(self.pick(['+', '-', '*']), rd, mut, t=INT)
+            if self.chance(10):
+                pair = self.matrix_operands()
+                if pair:
+                    return Bin(self.pick(['+', '-', '*']), pair[0], pair[1], t=INT)
             l = self.num_expr(depth - 1)
             if op in '/%' and not ('faults' in self.F and self.chance(20)):
                 r = Lit('int', self.pick([1, 2, 3, 7, 10, -1, -3]) if 'bigvals' in self.F else self.pick([1, 2, 3, 7, 10]), None, t=INT)
@@ -371,6 +375,10 @@ class Builder:
         if k == 'cmp':
             if self.chance(12):
                 pair = self.clobber_pair({INT, BYTE})
+                if pair:
+                    return Bin(self.pick(['<', '<=', '>', '>=', '==', '!=']), pair[0], pair[1], t=BOOL)
+            if self.chance(12):
+                pair = self.matrix_operands()
                 if pair:
                     return Bin(self.pick(['<', '<=', '>', '>=', '==', '!=']), pair[0], pair[1], t=BOOL)
             return Bin(self.pick(['<', '<=', '>', '>=']), self.num_expr(depth - 1), self.num_expr(depth - 1), t=BOOL)
@@ -702,12 +710,15 @@ class Builder:
                 break
             stmts += self.stmt()
         if tail is None and 'tt' in self.F and (self.in_try or self.flavor == '!') and not self.in_spec \
-                and self.preempts < self.size['max_preempts'] and self.chance(12):
+                and self.preempts < self.size['max_preempts'] \
+                and self.chance(self.size.get('exit_preempt_pct', 12) * (2 if self.loop_depth > 0 else 1)):
             # a block that ends in a preempt which always leaves: whether the block's own cleanup runs depends
             # on whether the preempt is taken
             self.preempts += 1
             if self.cur_func is not None:
                 self.cur_func.preemptive = True
+            if 'arrays' in self.F and self.chance(50):
+                stmts += self.decl_array()          # the block owns an array that its end has to release
             exits = [Return(None if self.cur_ret == EMPTY else self.coercing(self.cur_ret, 1))] if self.cur_func is not None else []
             if self.loop_depth > 0:
                 exits += [Break(), Continue()]
@@ -719,6 +730,61 @@ class Builder:
         if new_scope:
             self.scopes.pop()
         return Block(stmts)
+
+    def matrix_operands(self):
+        """(left, right) numeric operands drawn from a kind x kind matrix: the left value has to survive the
+        evaluation of the right one whatever form either takes (reachability obligation 'operand kept/not kept')."""
+        def elem():
+            vs = self.vars_of(lambda v: is_arr(v.ty) and v.ty[1] in (INT, BYTE) and v.static_len)
+            if not vs:
+                return None
+            v = self.pick(vs)
+            return Index(Var(v.name, t=v.ty), Lit('int', self.integer(0, v.static_len - 1), None, t=INT), t=v.ty[1])
+
+        def strelem():
+            if 'strings' not in self.F:
+                return None
+            consts = self.vars_of(lambda v: v.ty == STRING and v.const and v.static_len)
+            idxvars = [x for x in self.visible() if x.ty == INT and x.frozen]
+            if consts and self.chance(40):
+                v = self.pick(consts)
+                return Index(Var(v.name, t=STRING), Lit('int', self.integer(0, v.static_len - 1), None, t=INT), t=BYTE)
+            data = bytes(self.pick([97, 98, 48, 57, 65, 32, 200, 7]) for _ in range(self.integer(1, 10)))
+            return Index(Lit('string', data, None, t=STRING), Lit('int', self.integer(0, len(data) - 1), None, t=INT), t=BYTE)
+
+        def length():
+            vs = self.vars_of(lambda v: is_arr(v.ty) or v.ty == STRING)
+            if not vs:
+                return None
+            v = self.pick(vs)
+            return Len(Var(v.name, t=v.ty), t=INT)
+
+        def var():
+            vs = self.vars_of(lambda v: v.ty in (INT, BYTE))
+            if not vs:
+                return None
+            v = self.pick(vs)
+            return Var(v.name, t=v.ty)
+
+        def arith():
+            return Paren(Bin(self.pick(['+', '-', '*']), self.num_expr(1), self.num_expr(0), t=INT), t=INT)
+
+        def call():
+            fs = [f for f in self.callable_funcs(INT) + self.callable_funcs(BYTE) if f.flavor == '']
+            if not fs or 'calls' not in self.F:
+                return None
+            return self.call_expr(self.pick(fs), 1)
+
+        def cast():
+            return Is(self.int_expr(1), BYTE, t=BYTE) if 'bytes' in self.F else None
+
+        left_kinds = [elem, strelem, arith, call, length, cast]
+        right_kinds = [elem, strelem, length, var, cast, lambda: self.int_lit(), lambda: self.byte_lit()]
+        l = self.pick(left_kinds)()
+        r = self.pick(right_kinds)()
+        if l is None or r is None:
+            return None
+        return l, r
 
     def defeat_cond(self):
         """Argument of !truth_is_defeat: every shape the lowering special-cases (comparison, not comparison,
